@@ -90,7 +90,12 @@ impl SocketRecv for RouterSocket {
 #[async_trait]
 impl SocketSend for RouterSocket {
     async fn send(&mut self, mut message: ZmqMessage) -> ZmqResult<()> {
-        assert!(message.len() > 1);
+        // Not an assertion: proxy() hands this socket whatever a peer of the other socket sent
+        if message.len() < 2 {
+            return Err(ZmqError::Other(
+                "A message sent on a ROUTER socket needs an identity frame and at least one more frame",
+            ));
+        }
         let peer_id: PeerIdentity = message.pop_front().unwrap().try_into()?;
         match self.backend.peers.get_async(&peer_id).await {
             Some(mut peer) => {
